@@ -5,6 +5,8 @@ package world
 // InstallYields is a no-op without the verif build tag.
 func InstallYields(*Sim) {}
 
+func heldNow() int64 { return 0 }
+
 // RemoveYields is a no-op without the verif build tag.
 func RemoveYields() {}
 
